@@ -97,7 +97,8 @@ def fast_diag_contraction_structure(K, shape):
 
 @unit("fast_diag_native_neumann_problem", props=("C11",), kernels=False, native_check=True,
       configs=[dict(shape=(2, 2), precision="double"), dict(shape=(7, 4), precision="double"), dict(shape=(5, 9), precision="single"),
-               dict(shape=(2, 3, 5), precision="double"), dict(shape=(6, 4, 3), precision="single"), dict(shape=(16, 9, 12), precision="double")],
+               dict(shape=(2, 3, 5), precision="double"), dict(shape=(6, 4, 3), precision="single"), dict(shape=(16, 9, 12), precision="double"),
+               dict(shape=(52, 3), precision="single"), dict(shape=(4, 6, 56), precision="single")],
       desc="BOUNDED native stand-in: assembly, eigen-decomposition (LAPACK) and lemma M9 on small non-cubic grids")
 def fast_diag_native_neumann_problem(K, shape, precision):
     shape = tuple(shape)
@@ -141,3 +142,122 @@ def fast_diag_native_neumann_problem(K, shape, precision):
             sol.solve(solution_field=one, rhs_field=fv[comp])
             ok = ok and np.array_equal(one, uv[comp])
         K.ensures("vector_solve_equals_three_scalar_solves", ok)
+
+
+class _DiagsStub:
+    """contract stub of scipy.sparse.diags(...): the banded matrix as a dense array (toarray)"""
+
+    def __init__(self, data):
+        self.data = data
+
+    def __rmul__(self, s):
+        out = np.empty(self.data.shape, dtype=object)
+        for idx in np.ndindex(*self.data.shape):
+            out[idx] = s * int(self.data[idx])
+        return _DiagsStub(out)
+
+    def toarray(self):
+        return self.data
+
+
+class _SppStub:
+    @staticmethod
+    def diags(diagonals, offsets, shape=None, format=None):  # noqa: A002
+        import scipy.sparse as real
+        return _DiagsStub(real.diags(diagonals, offsets, shape=shape).toarray().astype(int))
+
+
+@unit("fast_diag_assembly_and_spectral_weights", props=("C11",), kernels=False,
+      configs=[dict(shape=(2, 3)), dict(shape=(3, 2)), dict(shape=(2, 3, 2)), dict(shape=(1, 2, 3))],
+      assumes=("numpy.linalg.eigh contract: ascending real eigenvalues, eigenvectors as columns; numpy.linalg.inv: the inverse "
+               "(both replaced by stubs returning symbolic arrays)", "scipy.sparse.diags(...).toarray() is the banded matrix",
+               "lemma M9: for the Neumann matrix the eigenvalue 0 is simple and is the smallest, hence LAST after the descending sort",
+               "sizes bounded; dx and all eigen-data symbolic"))
+def fast_diag_assembly_and_spectral_weights(K, shape):
+    """real constructor path (_construct_poisson_matrices, _apply_boundary_conds..., _compute_spectral_decomp...):
+    every 1-D matrix is the second-order Neumann Laplacian / dx^2; after the descending sort V_a / V_a^-1 belong to
+    axis a, and the spectral weight tensor is 1/(lz[k]+ly[j]+lx[i]) with exactly ONE zero entry, at the last index."""
+    if K.mode != "sym":
+        return None
+    import importlib
+
+    from svx import objnp
+    from svx.symnp import SymReal64
+    shape = tuple(shape)
+    dim = len(shape)
+    m = importlib.import_module(MOD[dim])
+    cls = K.repo(f"{MOD[dim]}:FastDiagPoissonSolver{dim}D")
+    axes = "zyx"[3 - dim:]
+    dx = K.real("dx", pos=True)
+    seen = []
+    lam, vec, inv = {}, {}, {}
+
+    class LA:
+        @staticmethod
+        def eigh(mat):
+            n = mat.shape[0]
+            a = axes[::-1][len(seen)]  # the constructor decomposes x first, then y, then z
+            seen.append((a, mat.copy()))
+            lam[a] = objnp.fresh(f"lambda_{a}", (n,))
+            K.requires(S_(lam[a][0]) == 0)  # M9: the Neumann matrix has the simple eigenvalue 0, all others positive
+            for i in range(n - 1):  # ascending (eigh's contract)
+                K.requires(S_(lam[a][i]) < S_(lam[a][i + 1]))
+            vec[a] = objnp.fresh(f"U_{a}", (n, n))
+            return lam[a].copy(), vec[a].copy()
+
+        eig = eigh
+
+        @staticmethod
+        def inv(mat):
+            a = [ax for ax in axes if ax not in inv][-1] if False else axes[::-1][len(inv)]
+            inv[a] = (objnp.fresh(f"Uinv_{a}", mat.shape), mat.copy())
+            return inv[a][0]
+
+        multi_dot = staticmethod(np.linalg.multi_dot)
+
+    saved = (m.la, m.spp, m.np)
+    m.la, m.spp, m.np = LA, _SppStub, objnp.ObjNp()
+    try:
+        kw = {f"grid_size_{a}": n for a, n in zip(axes, shape)}
+        sol = cls(dx=dx, real_t=SymReal64, **kw)
+    finally:
+        m.la, m.spp, m.np = saved
+    # ---- assembly: second-order negative Laplacian with homogeneous Neumann closure, over dx^2 ---------------------
+    K.ensures("one_decomposition_per_axis_x_then_y_then_z", [a for a, _ in seen] == list(axes[::-1]))
+    for a, mat in seen:
+        n = mat.shape[0]
+        for i in range(n):
+            for j in range(n):
+                if i == j:
+                    exp = (1 if (i == 0 or i == n - 1) else 2)
+                    if n == 1:
+                        exp = 1  # both closures coincide on a one-cell axis (the later assignment wins)
+                else:
+                    exp = -1 if abs(i - j) == 1 else 0
+                K.ensures_eq(f"neumann_laplacian_entry[{a},{i},{j}]", mat[i, j], exp / dx**2)
+    # ---- eigenvectors: descending re-sort keeps eigenpairs together; the inverse is taken of the SORTED matrix ------------
+    for a in axes:
+        n = shape[axes.index(a)]
+        V = getattr(sol, f"eig_vecs_{a}", None)
+        if V is None:  # 2-D solver stores the x matrices transposed
+            V = sol.tranpose_of_eig_vecs_x.T
+        for i in range(n):
+            for k in range(n):
+                K.ensures_eq(f"sorted_eigenvector_columns[{a},{i},{k}]", V[i, k], vec[a][i, n - 1 - k])
+        Vi_arg = inv[a][1]
+        K.ensures(f"inverse_is_taken_of_the_sorted_eigenvector_matrix[{a}]",
+                  all(S_(Vi_arg[i, k]).same(S_(vec[a][i, n - 1 - k])) for i in range(n) for k in range(n)))
+        Vi = getattr(sol, f"inv_of_eig_vecs_{a}", None)
+        if Vi is None:
+            Vi = sol.tranpose_of_inv_of_eig_vecs_x.T
+        K.ensures(f"stored_inverse_is_la_inv_result[{a}]", all(S_(Vi[idx]).same(S_(inv[a][0][idx])) for idx in np.ndindex(n, n)))
+    # ---- spectral weights --------------------------------------------------------------------------------------------
+    W = sol.inv_eig_val_matrix
+    K.ensures("weight_tensor_shape", W.shape == shape)
+    last = tuple(n - 1 for n in shape)
+    for k in itertools.product(*[range(n) for n in shape]):
+        if k == last:
+            K.ensures_eq("constant_mode_is_removed_(weight_zero_at_the_last_index)", W[k], 0)
+        else:
+            s = sum(S_(lam[a][shape[d] - 1 - k[d]]) for d, a in enumerate(axes))  # descending order
+            K.ensures_eq(f"weight_is_reciprocal_of_summed_eigenvalues{list(k)}", W[k], 1 / s)
